@@ -427,7 +427,7 @@ fn run_history(run: &mut Run, pool: &Pool, first: &mut BTreeMap<usize, String>, 
     let mut plan: Vec<(usize, u8)> = Vec::new();
     for _ in 0..len {
         let ri = if rng.chance(2, 5) { *rng.pick(&hot) } else { rng.below(pool.reqs.len() as u64) as usize };
-        plan.push((ri, rng.below(4) as u8));
+        plan.push((ri, rng.below(8) as u8));
     }
     let mut main_ctx = Ctx::default();
     let mut pos = 0;
